@@ -210,6 +210,14 @@ def r7_cursor_loops(text):
         return mk(m.group(1), m.group(2), m.group(3), m.group(4), 'iter', deref_pat=True, cursor=m.group(2) + '_nx')
     text = re.sub(r'(?m)^(\s*)for \((\w+), &(\w+)\) in ([\w\.]+)\.iter\(\)\.enumerate\(\) \{', repl_enum_deref, text)
 
+    def repl_filter(m):
+        # for c in xs.iter[_mut]().filter(|p| PRED) {   ->   cursor loop whose body starts with `if !(PRED) { continue; }`
+        ind, var, xs, mutk, par, pred = m.group(1), m.group(2), m.group(3), m.group(4), m.group(5), m.group(6)
+        if par != var:
+            pred = re.sub(r'\b%s\b' % re.escape(par), var, pred)
+        return mk(ind, None, var, xs, mutk) + f'\n{ind}    if !({pred}) {{ continue; }}'
+    text = re.sub(r'(?m)^(\s*)for (\w+) in ([\w\.]+)\.(iter|iter_mut)\(\)\.filter\(\|&?(\w+)\| (.+)\) \{$', repl_filter, text)
+
     def repl_copy(m):
         return mk(m.group(1), None, m.group(2), m.group(3), 'iter', deref_pat=True)
     text = re.sub(r'(?m)^(\s*)for &(\w+) in ([\w\.]+)\.iter\(\) \{', repl_copy, text)
@@ -385,3 +393,57 @@ def clean_source(text, stats, *, features=(), log_free=True):
         if k:
             stats[name] += k
     return text
+
+
+def r18_guards_to_ifs(text, scrutinee):
+    """`match SCRUT { P1 if G1 => {B1} P2 if G2 => {B2} ... _ => {} }`  ->  `match SCRUT { P1 => { if G1 {B1} } ... _ => {} }`.
+    Sound only when the guarded arms have pairwise different head constructors and the only arm a failed guard can fall
+    through to is a trailing `_ => {}` with an EMPTY body (checked here; otherwise RuleError).  Needed because this Verus
+    loses the frame of `&mut self` across match guards (measured: even a guard that does not mention self)."""
+    m = re.search(r'match ' + re.escape(scrutinee) + r' \{', text)
+    if not m:
+        raise RuleError('R18: match %s not found' % scrutinee)
+    ob = m.end() - 1
+    cb = match_bracket(text, ob, '{', '}')
+    body = text[ob + 1:cb]
+    arms = []
+    i = 0
+    n = len(body)
+    while True:
+        while i < n and body[i].isspace():
+            i += 1
+        if i >= n:
+            break
+        j = body.find('=>', i)
+        if j < 0:
+            raise RuleError('R18: arm without =>')
+        head = body[i:j].strip()
+        k = j + 2
+        while body[k].isspace():
+            k += 1
+        if body[k] != '{':
+            raise RuleError('R18: arm body is not a block')
+        e = match_bracket(body, k, '{', '}')
+        arms.append((head, body[k:e + 1]))
+        i = e + 1
+        while i < n and body[i] in ' ,\n\t':
+            i += 1
+    if not arms or arms[-1][0] != '_' or arms[-1][1].strip('{} \n\t') != '':
+        raise RuleError('R18: last arm is not `_ => {}`')
+    heads = []
+    out = []
+    cnt = 0
+    for head, blk in arms[:-1]:
+        mm = re.match(r'(.+?)\s+if\s+(.+)$', head, re.S)
+        pat = (mm.group(1) if mm else head).strip()
+        ctor = re.match(r'[\w:]+', pat).group(0)
+        if ctor in heads:
+            raise RuleError('R18: two arms share the constructor ' + ctor)
+        heads.append(ctor)
+        if mm:
+            out.append('%s => { if %s %s }' % (pat, ' '.join(mm.group(2).split()), blk))
+            cnt += 1
+        else:
+            out.append('%s => %s' % (pat, blk))
+    out.append('_ => {}')
+    return text[:ob + 1] + '\n            ' + '\n            '.join(out) + '\n        ' + text[cb:], cnt
